@@ -263,6 +263,21 @@ def r5(ctx):
     u = [tm for bi, t, tm in a.real_calls() if mir.short(tm[1]) == "DrawdownGenerator::update"]
     ctx.check("TearSheetAssetGenerator::update_from_balance", len(u) == 1 and render(u[0][2][1]) == "Timed::Timed{value: balance.0.balance.total, time: balance.0.time_exchange}"
               and render(u[0][2][0]) == "self.drawdown", "the equity curve point is (total balance, exchange time)", got=[render(x) for x in u], key="curve")
+    # the FIRST point of the equity curve: init / reset seed the drawdown generator from the same figure (total balance, its time)
+    ib = ctx.fibody(name="init", self_adt=TA, trait="")
+    p = ib.param_name(1)
+    rt = common.resolve_calls(ctx, ib.return_term(), lambda c: mir._strip_generics(c).endswith(("DrawdownGenerator::init", "Timed::new")))
+    dd = common.agg_fields(rt, "DrawdownGenerator::DrawdownGenerator")
+    top = common.agg_fields(rt, "TearSheetAssetGenerator::TearSheetAssetGenerator")
+    ok = dd.get("peak") == "Option::Some{0: %s.value.total}" % p and dd.get("time_peak") == "Option::Some{0: %s.time}" % p and \
+        dd.get("time_now") == "%s.time" % p and "ZERO" in dd.get("drawdown_max", "") and top.get("balance_now") == "Option::Some{0: %s.value}" % p
+    ctx.check("TearSheetAssetGenerator::init", ok, "the equity curve starts at (total balance, its time) of the initial balance - the same figure "
+              "every later point is taken from", got={"drawdown": dd, "balance_now": top.get("balance_now")}, key="seed")
+    rb = ctx.fibody(name="reset", self_adt=TA, trait="")
+    st = [(render(x[2]), render(x[3])) for x in rb.stores()]
+    ctx.check("TearSheetAssetGenerator::reset", st == [("self", "TearSheetAssetGenerator::init(%s)" % rb.param_name(2))] or
+              (len(st) >= 4 and all(a.startswith("self.") for a, _ in st)),
+              "reset re-seeds the whole generator from the given balance", got=st, key="reset")
 
 
 RULES = [
